@@ -112,6 +112,7 @@ func (e *Env) finishEvent() {
 
 // Apply executes op on implementation and model.
 func (e *Env) Apply(op Op) {
+	e.faultMark = e.Disk.Faults
 	switch op.K {
 	case QWrite:
 		// continues an unfinished event if there is one (contents depend on event number and offset only)
@@ -240,6 +241,11 @@ func (e *Env) Apply(op Op) {
 			return
 		}
 		if err != nil {
+			if e.TolerateFaults && e.Disk.Faults > e.faultMark {
+				e.Faulted++
+				e.obs("ACK=io-error")
+				return
+			}
 			e.violate("queue/error/ACK", "ACK(%d) of %d delivered, un-ACKed events failed: %v", n, e.ReadPos-e.Acked, err)
 			return
 		}
